@@ -10,14 +10,16 @@ CLAIMED = {
          "char.def text parsing (from_reader/encode_cate_info: last range line wins) is outside the claim: 65536-entry table fill per call"),
  "C04": ("concrete operation histories (tokenize twice, long-then-short, short-then-long, empty between, reset twice) on one worker vs a fresh worker with symbolic costs; inductive steps for Lattice::reset, Worker::reset_sentence and tokenize from arbitrary prior state",
          "schedules (threads) are not explored: Kani does not model concurrency; Send+Sync of Tokenizer/Dictionary is a compile-time bound in the harness crate, trusted not explored"),
+ "C05": ("Dictionary::write into an element-wise writer then Dictionary::read of those bytes, for dictionaries of concrete structure (matrix / matrix+user+mapper / raw connector; dual in the thorough tier) with symbolic numeric contents: reported byte count = bytes emitted, and every field read back (word and unknown parameters, matrix cells, character infos, mapper vectors, 8-lane feature rows, scorer arrays, trie bytes, postings) equals the field written",
+         "bounded to 2-3 words, 2x2 ids, 3-entry character table, all strings empty (UTF-8 validation of non-empty heap strings does not fold under Kani); a second write of the reloaded value, tokenization equivalence after reload and AVX2 interchange are outside the claim; stubs: unty::type_equal (type-name comparison), alloc::fmt::format; reader/writer are element-wise instantiations of the generic Read/Write parameters"),
  "C06": ("ConnIdMapper::from_iter accepts exactly permutation pairs for all u16 vectors; matrix connector and whole-dictionary mapping keep cost(map r,map l)=cost(r,l) and map every entry consistently; malformed / wrong-length mappings give Err; tokenization before/after mapping agrees on a 2-character sentence",
          "matrix connector only (raw/dual mapping: thorough tier); user lexicon loaded after mapping and write/read round trip not reached"),
  "C07": ("XOR double-array lookup (retrieve_cost) against its definition for arbitrary arrays and every 31-bit key, 8-lane accumulation, RawConnector::cost and DualConnector::cost arithmetic on parts-built connectors with symbolic feature rows / class maps / matrix cells",
          "construction from bigram.right/left/cost text (from_readers, template split, interning) is outside the claim; ScorerBuilder::build on concrete key sets is attempted in the thorough tier (BTreeMap iteration does not fold: non-core); AVX2 path not modelled by Kani"),
  "C08": ("system {a} + user {ab} vs system {a,ab} with shared symbolic parameters: same optimal cost, same candidate counts, the user word offered as a user-lexicon candidate with the same prefix minimum, system words still available; reset_user_lexicon_from_reader(None) removes every user candidate",
          "loading/replacing a user lexicon from CSV text is outside the claim (WordMapBuilder's BTreeMap and the crawdad builder do not fold under CBMC); id verification is covered under C10 (c10_verify_ids)"),
- "C09": ("foreign magic (all 21 header bytes symbolic) and every truncation point inside the header are rejected; hand-written decoders (U31 range, Scorer array consistency) on symbolic bytes",
-         "truncation points inside the bincode body: attempted in the thorough tier (symbolic truncation point over a 359-byte image), listed as no-verdict when the solver does not finish; not counted as covered"),
+ "C09": ("any 21-byte header different from the current magic followed by a valid body is rejected (all header bytes symbolic); the complete image loads; hand-written decoders on symbolic bytes: U31 and U31x8 reject exactly the out-of-range lanes and every truncated input, the Scorer decoder rejects inconsistent array lengths; thorough tier: every strict prefix of whole images (symbolic truncation point, CBMC path exploration)",
+         "359-695-byte images with empty strings; the truncation-point harnesses use `cbmc --paths lifo` and are non-core (reported as no-verdict if they do not finish within the cap); reader = element-wise CutReader instantiation of the generic Read parameter; stubs: unty::type_equal, alloc::fmt::format"),
  "C10": ("numeric/packing kernels: CharInfo::new bit packing for all inputs; mapping validation (see C06); accepted-dictionary-implies-safe-use through the C01 pipeline instances",
          "totality over arbitrary file bytes is not decided (parsers over >5 arbitrary bytes are out of reach); listed in DESIGN"),
  "C12": ("pairs of re-spaced sentences tokenized in one query by two workers of one tokenizer with symbolic costs: same tokens, ids, total costs; ignore_space rejected without SPACE category",
@@ -26,7 +28,6 @@ CLAIMED = {
          "counts up to 7 per id, 3-4 ids per side, N<=2 sentences; f64 division executed symbolically by CBMC's float model"),
 }
 NA = {
- "C05": "whole-image write/read is not within reach of the solver here (decoding a 359-byte image did not fold: >10 min, >10 GB); per-codec checks of the hand-written decoders live under C09; AVX2 intrinsics are not modelled by Kani",
  "C11": "parse_csv folds only on fully concrete rows (6 s with csv-core in NFA mode and 5000-element field sensitivity); with symbolic content bytes csv-core's state machine becomes symbolic at every byte and an 11-byte row gave no verdict in 12 minutes (attempt kept in kani/c11_attempt.rs.txt). A concrete-row run decides nothing a unit test does not.",
  "C14": "values come from rucrf L-BFGS training (f64 loops to convergence); no bounded encoding of a trained model is within reach",
  "C15": "needs a trained model and decoding of an image that embeds a 65536-entry table; not constructible/decodable inside the solver",
